@@ -4,7 +4,7 @@ from __future__ import annotations
 import ast
 
 from ..core.cfg import CFG
-from ..core.repo import (AnalysisError, Repo, call_name, calls_in, definitions, dotted, is_const,
+from ..core.repo import (AnalysisError, Repo, call_name, calls_in, definitions, dotted, func_params, is_const,
                          kwarg, names_in, unparse, walk_no_nested_defs, parent)
 from ..domains.alias import Aliasing
 
@@ -101,6 +101,31 @@ def run(check, repo: Repo) -> None:
     ok = any(isinstance(c, ast.Call) and call_name(c) == "np.full" and c.args and dotted(c.args[0]) == "ndim" for c in ast.walk(vn))
     check.decide(ok, "C03-R1", "validate_ndinfo: scalar broadcast has ndim entries", "", vmod.line(vn),
                  fail_detail="the scalar arm does not build np.full(ndim, value)")
+
+    # the sequence arm of validate_ndinfo yields a 1-D array: `len(arr) == ndim` only bounds the FIRST dimension, so the array
+    # must be flattened (or its rank / full shape tested) before it is returned
+    rets = [n.value for n in walk_no_nested_defs(vn) if isinstance(n, ast.Return) and isinstance(n.value, ast.Name)]
+    seq_names = {r.id for r in rets}
+    flat, rank_test = False, False
+    for nm in seq_names:
+        for d in definitions(vn, nm):
+            if not isinstance(d, ast.AST) or any(isinstance(c, ast.Call) and call_name(c) == "np.full" for c in ast.walk(d)):
+                continue
+            for c in ast.walk(d):
+                if isinstance(c, ast.Call) and isinstance(c.func, ast.Attribute) and c.func.attr in ("flatten", "ravel"):
+                    flat = True
+                if isinstance(c, ast.Call) and isinstance(c.func, ast.Attribute) and c.func.attr == "reshape" and c.args and unparse(c.args[0]) in ("-1", "(-1,)"):
+                    flat = True
+                if isinstance(c, ast.Call) and (call_name(c) or "") in ("np.ravel",):
+                    flat = True
+    for n in ast.walk(vn):
+        if isinstance(n, ast.If) and any(isinstance(s_, ast.Raise) for s_ in n.body):
+            t = unparse(n.test)
+            if any(f"{nm}.ndim" in t or f"{nm}.shape !=" in t or f"np.ndim({nm})" in t for nm in seq_names):
+                rank_test = True
+    check.decide(flat or rank_test, "C03-R1", "validate_ndinfo: the sequence arm returns a 1-D array (flattened, or rank-checked) of length ndim", "", vmod.line(vn),
+                 fail_detail="the returned array is neither flattened nor rank-checked: 2-D input whose first dimension equals ndim (a column vector, a nested list) is stored "
+                             "as a calibration with more than one entry per axis")
 
     # ---- R2 private-write ownership ------------------------------------------------------------
     counts = {a: 0 for a in ("_array", "_origin", "_sampling", "_units")}
@@ -351,6 +376,24 @@ def _length_preserving(fn: ast.AST, value: ast.AST):
 
 def _rule_getitem(check, repo: Repo, mod) -> None:
     _, fn = repo.func(f"{DS}:Dataset.__getitem__")
+    # index normalisation order: the Ellipsis expansion computes its width from len(index); padding the index to ndim first
+    # leaves the Ellipsis one slot wide and pushes every entry after it onto the wrong axis
+    ip = func_params(fn)[1]
+    ell = [n for n in walk_no_nested_defs(fn) if isinstance(n, ast.If) and isinstance(n.test, ast.Compare) and isinstance(n.test.ops[0], ast.In)
+           and unparse(n.test.left) in ("Ellipsis", "...") and unparse(n.test.comparators[0]) == ip]
+    pad = [n for n in walk_no_nested_defs(fn) if isinstance(n, ast.If) and isinstance(n.test, ast.Compare) and isinstance(n.test.ops[0], (ast.Lt, ast.NotEq, ast.LtE))
+           and unparse(n.test.left) == f"len({ip})" and unparse(n.test.comparators[0]) == "self.ndim"]
+    if len(ell) != 1 or len(pad) != 1:
+        raise AnalysisError(f"Dataset.__getitem__: index normalisation (`Ellipsis in {ip}` / `len({ip}) < self.ndim`) not recognised")
+    gcfg = CFG(fn)
+    en, pn = min(gcfg.nodes_of(ell[0])), min(gcfg.nodes_of(pad[0]))
+    check.decide(gcfg.dominates(en, pn) and en not in gcfg.reachable_from(pn), "C03-R6", "Dataset.__getitem__: Ellipsis is expanded before the index is padded to ndim", "",
+                 mod.line(ell[0]), fail_detail="the index is padded to ndim before the Ellipsis is expanded: `ds[..., k]` with fewer entries than axes assigns k to the wrong axis "
+                                               "and drops the wrong calibration entry")
+    widths = [unparse(d) for n in ast.walk(ell[0]) if isinstance(n, ast.Assign) for d in [n.value] if "self.ndim" in unparse(d) and "len(" in unparse(d)]
+    check.decide(any(w.replace(" ", "") in (f"self.ndim-(len({ip})-1)", f"self.ndim-len({ip})+1", f"self.ndim+1-len({ip})") for w in widths), "C03-R6",
+                 "Dataset.__getitem__: the Ellipsis stands for ndim − (len(index) − 1) full slices", str(widths), mod.line(ell[0]),
+                 fail_detail=f"Ellipsis width is {widths}: the normalised index does not have one entry per axis")
     # kept-axes definition: a list comprehension over enumerate(index) excluding integer indices
     kept = None
     for n in walk_no_nested_defs(fn):
